@@ -20,6 +20,24 @@ Monitors (all runtime monitoring of the real code):
         Observation only (counters observed_midi/*): MIDI is outside C18.
   tcp   harness peer writes whole / coalesced / fragmented size-prefixed
         frames to the library's OscTcpInterface; exact in-order delivery.
+  histrt  (vf/c18_rt.py) the harness thread performs responder operations WHILE
+        datagrams arrive over loop-back UDP / a TCP connection and are
+        dispatched by the library's receive and clock threads, with the
+        schedule injector (vf/inject.py) on the dispatcher / responder /
+        registry code; interval semantics (an operation concurrent with a
+        message may or may not affect it, one completed before the send must be
+        visible), possible-worlds set per one-shot responder.
+
+Entry points beyond constructor / enable / disable / free / one_shot (round 7b):
+@oscfunc decorator (25 % of creations), dispatcher instances given to the
+constructor (20 %), OscFunc.trace(flag, hide_status) as a history operation with
+its dumps judged (exactly the delivered messages, status replies of a server
+hidden), the class-level listings _all_enabled / _all_disabled /
+_all_func_proxies after every operation and dispatch, CmdPeriod.hard_run (hist
+and reg), StartUp.defer before / after start-up, SystemAction._do_action,
+NotificationCenter.clear (also from inside a notification);
+AbstractDispatcher.free and ServerAction._do_action are observed only
+(counters observed_*: outside the statement).
 """
 
 from vf.common import iter_cases, case_rng, h64, split
@@ -43,6 +61,11 @@ RULE = ("hist: seeded histories (5-55 ops) over <=10 responders on 4-9 paths tha
         "decoder although it starts like a packet, or valid with >1 message. "
         "reg: add/re-add/remove/remove_all/run histories in which a running action "
         "removes a later / an earlier action / itself / everything or adds one; non-trivial = a removal followed by a run with >=2 actions. "
+        "histrt: histories of 3-10 rounds; a round = 3-10 datagrams (25 % of the rounds "
+        "over TCP) interleaved by the harness thread with 1-4 operations (create / "
+        "free / disable / enable / one_shot / function replacement / permanent / "
+        "CmdPeriod.run) and closed by a sentinel; non-trivial = a message concurrent "
+        "with an operation and a verified 'must' invocation. "
         "distinct = hash of history / pattern group / datagram bytes")
 ASSUMPTIONS = [
     "vf/model_dispatch.py:osc_match is the meaning of 'OSC 1.0 pattern' (per-part "
@@ -81,6 +104,28 @@ ASSUMPTIONS = [
     "its own turn) must not run, for SystemAction/StartUp/CmdPeriod, ServerAction "
     "and NotificationCenter alike; actions added during a run are left open",
     "CPython 3.12 sys.monitoring LINE events count parser steps",
+    "histrt: one socket / one TCP connection delivers in order and the SystemClock "
+    "thread dispatches one message after the other, so everything observed for a "
+    "later datagram of the same transport happens after the dispatch of an earlier "
+    "one ended; global counter stamps (itertools.count under the GIL) order "
+    "operation start / end, sends and observations",
+    "histrt: a message concurrent with CmdPeriod.run() may be dropped as a whole "
+    "(it clears the SystemClock queue); enable() is not generated for a one-shot "
+    "responder that was enabled at any time of the current round (it may have fired "
+    "and freed itself); responder functions neither raise nor operate there",
+    "histrt: the injector only delays threads at statement boundaries of the "
+    "dispatcher / responder / registry code; KeyError / ValueError out of the table "
+    "bookkeeping functions (c18_rt.BOOKKEEPING) share one mechanism key whichever "
+    "thread notices the double removal first",
+    "trace: after CmdPeriod the tracing state is left open until the next "
+    "trace(False) (the library ends tracing there, undocumented); trace(True) is only "
+    "generated while tracing is off (trace(True) while tracing stops it: observed, "
+    "outside the statement); with a raising responder function the dump is open",
+    "hard_run: the default server's address is pointed at a socket of the harness so "
+    "that the node-tree re-initialisation talks to nobody else on the host; the "
+    "harness waits for the '/sync' of that routine before it goes on",
+    "listings: _all_enabled / _all_disabled / _all_func_proxies are private but "
+    "documented by their doc strings; restricted to the history's own responders",
 ]
 MIN_COUNTERS = {
     'quick': {'hist_messages': 3000, 'invocations_checked': 2000,
@@ -95,7 +140,19 @@ MIN_COUNTERS = {
               'fuzz_datagrams': 5000, 'fuzz_malformed': 2000,
               'fuzz_canaries_ok': 5000, 'parser_line_events': 100000,
               'udp_datagrams': 100, 'registry_runs': 2000,
-              'registry_action_calls_checked': 4000},
+              'registry_action_calls_checked': 4000,
+              'created_via_decorator': 2000, 'created_on_dispatcher_instance': 1500,
+              'trace_dumps_checked': 1500, 'trace_status_replies_hidden': 150,
+              'trace_off_checked': 10000, 'listing_checks': 30000,
+              'hist_op/cmd_period-hard': 100, 'registry_defer_immediate': 300,
+              'registry_defer_registered': 30, 'registry_do_action_registered': 400,
+              'registry_hard_runs': 300, 'registry_nc_clear': 50,
+              'registry_nc_clear_inside_notify': 30,
+              'rt_messages': 8000, 'rt_messages_concurrent_with_op': 4000,
+              'rt_messages/tcp': 1000, 'rt_invocations_checked': 4000,
+              'rt_verdicts/must': 3000, 'rt_ops_overlapping_a_dispatch': 500,
+              'rt_one_shots_fired': 100, 'rt_order_pairs_checked': 150,
+              'rt_injected_yields': 30000},
     'thorough': {'hist_messages': 100000, 'invocations_checked': 60000,
                  'order_pairs_checked': 5000, 'one_shots_fired': 3000,
                  'in_callback_ops_total': 3000,
@@ -110,7 +167,19 @@ MIN_COUNTERS = {
                  'fuzz_datagrams': 200000, 'fuzz_malformed': 80000,
                  'fuzz_canaries_ok': 200000, 'parser_line_events': 5000000,
                  'udp_datagrams': 3000, 'registry_runs': 100000,
-                 'registry_action_calls_checked': 200000},
+                 'registry_action_calls_checked': 200000,
+                 'created_via_decorator': 30000, 'created_on_dispatcher_instance': 22000,
+                 'trace_dumps_checked': 22000, 'trace_status_replies_hidden': 2000,
+                 'trace_off_checked': 150000, 'listing_checks': 450000,
+                 'hist_op/cmd_period-hard': 1500, 'registry_defer_immediate': 4500,
+                 'registry_defer_registered': 450, 'registry_do_action_registered': 6000,
+                 'registry_hard_runs': 4500, 'registry_nc_clear': 750,
+                 'registry_nc_clear_inside_notify': 450,
+                 'rt_messages': 120000, 'rt_messages_concurrent_with_op': 60000,
+                 'rt_messages/tcp': 15000, 'rt_invocations_checked': 60000,
+                 'rt_verdicts/must': 45000, 'rt_ops_overlapping_a_dispatch': 7500,
+                 'rt_one_shots_fired': 1500, 'rt_order_pairs_checked': 2000,
+                 'rt_injected_yields': 450000},
 }
 
 
@@ -128,6 +197,7 @@ def plan(tier, seed):
 
     add('hist', 'rt', 6000 if q else 150000, 4 if q else 6)
     add('histudp', 'rt', 300 if q else 6000, 1 if q else 2)
+    add('histrt', 'rt', 800 if q else 28000, 2 if q else 4, p_yield=0.1)
     add('pat', 'rt', 3000 if q else 90000, 2 if q else 3)
     add('fuzz', 'rt', 45000 if q else 1200000, 3 if q else 6)
     add('fuzzudp', 'rt', 2000 if q else 40000, 1)
@@ -142,6 +212,9 @@ def run_shard(spec, acc):
     if kind in ('hist', 'histudp'):
         from vf import c18_hist
         c18_hist.run(spec, acc, udp=(kind == 'histudp'))
+    elif kind == 'histrt':
+        from vf import c18_rt
+        c18_rt.run(spec, acc)
     elif kind == 'pat':
         from vf import c18_pat
         c18_pat.run(spec, acc)
